@@ -138,7 +138,13 @@ func (r *Record) Start() int {
 func (r *Record) Bin() int {
 	// Unmapped reads are treated as being one base long, so an
 	// unplaced read (Pos -1) gets reg2bin(-1, 0) = 4680.
-	return int(internal.BinFor(r.Pos, r.End()))
+	end := r.End()
+	if end == r.Pos {
+		// An alignment that consumes no reference is also
+		// treated as being one base long (SAM v1 section 4.2.1).
+		end++
+	}
+	return int(internal.BinFor(r.Pos, end))
 }
 
 // Len returns the length of the alignment.
